@@ -456,5 +456,5 @@ def search(ctx):
     # thorough: several independently seeded Hypothesis runs per worker instead of one long one
     chunks = 1 if not ctx.thorough else 6
     for k in range(chunks):
-        core.run_given(ctx, "radon-%d" % k, radon_cases(), lambda c: check(ctx, c), ctx.n(1250, 2500))
-        core.run_given(ctx, "iradon-%d" % k, iradon_cases(), lambda c: check(ctx, c), ctx.n(1250, 2500))
+        core.run_given(ctx, "radon-%d" % k, radon_cases(), lambda c: check(ctx, c), ctx.n(1100, 2500))
+        core.run_given(ctx, "iradon-%d" % k, iradon_cases(), lambda c: check(ctx, c), ctx.n(1100, 2500))
